@@ -56,7 +56,7 @@ def work(task):
     for new, old in origin.items():
       if old in ol: ol[new] = ol[old]
     c.ol = {k: tuple(v) for k, v in ol.items()} or None
-    h.run_case(c, None, prepared_rules=rules)
+    h.run_case(c, (lambda case, pred, db, exp, got, diff: 'F44-functor-copies-share-an-explicitly-named-ground-table') if c.family == 'FUNCTOR-GROUND-EXPLICIT' else None, prepared_rules=rules)
   res = h.result(); h.close()
   for v in res['viol']:
     v['case']['pickle'] = base64.b64encode(pickle.dumps(c01.find(cs, v['case']['text']))).decode()
